@@ -8,6 +8,7 @@ import (
 	"errors"
 	"fmt"
 	"io"
+	"sync"
 
 	json "github.com/go-json-experiment/json"
 	"github.com/go-json-experiment/json/jsontext"
@@ -93,6 +94,14 @@ func (e *Env) log(method string, id int, res string) {
 	}
 }
 
+var findingMu sync.Mutex
+
+func (e *Env) finding(msg string) {
+	findingMu.Lock()
+	e.Findings = append(e.Findings, msg)
+	findingMu.Unlock()
+}
+
 func (e *Env) yield(site string) {
 	if e.Yield != nil {
 		e.Yield(site)
@@ -120,7 +129,7 @@ func (e *Env) MarshalTo(method string, id int, enc *jsontext.Encoder) error {
 	e.yield("peer/" + method)
 	if e.CheckOpts != nil {
 		if msg := e.CheckOpts(enc.Options()); msg != "" {
-			e.Findings = append(e.Findings, method+": "+msg)
+			e.finding(method+": "+msg)
 		}
 	}
 	switch b.Kind {
@@ -175,7 +184,7 @@ func (e *Env) MarshalTo(method string, id int, enc *jsontext.Encoder) error {
 		func() {
 			defer func() {
 				if r := recover(); r == nil {
-					e.Findings = append(e.Findings, method+": Encoder.Reset inside a marshal call did not panic")
+					e.finding(method+": Encoder.Reset inside a marshal call did not panic")
 				}
 			}()
 			enc.Reset(io.Discard)
@@ -197,7 +206,7 @@ func (e *Env) MarshalTo(method string, id int, enc *jsontext.Encoder) error {
 		func() {
 			defer func() {
 				if r := recover(); r == nil {
-					e.Findings = append(e.Findings, method+": Encoder.Reset inside a marshal call did not panic after a nested MarshalEncode")
+					e.finding(method+": Encoder.Reset inside a marshal call did not panic after a nested MarshalEncode")
 				}
 			}()
 			enc.Reset(io.Discard)
@@ -316,7 +325,7 @@ type PToPtr struct{ ID int }
 
 func (p *PToPtr) MarshalJSONTo(e *jsontext.Encoder) error {
 	if p == nil {
-		Cur.Findings = append(Cur.Findings, "PToPtr.MarshalJSONTo called on a nil pointer")
+		Cur.finding("PToPtr.MarshalJSONTo called on a nil pointer")
 		return e.WriteToken(jsontext.Null)
 	}
 	return Cur.MarshalTo("PToPtr.MarshalJSONTo", p.ID, e)
@@ -330,7 +339,7 @@ type PJSONPtr struct{ ID int }
 
 func (p *PJSONPtr) MarshalJSON() ([]byte, error) {
 	if p == nil {
-		Cur.Findings = append(Cur.Findings, "PJSONPtr.MarshalJSON called on a nil pointer")
+		Cur.finding("PJSONPtr.MarshalJSON called on a nil pointer")
 		return []byte("null"), nil
 	}
 	return Cur.MarshalBytes("PJSONPtr.MarshalJSON", p.ID)
